@@ -181,6 +181,7 @@ def _run(pid, cfg, tier, seed, work, t0, replay):
 
     if replay:
         return do_replay(pid, cfg, binary, env, work, replay)
+    shutil.rmtree(os.path.join(ROOT, "replay", pid), ignore_errors=True)
 
     nshards = cfg.get("shards", 8) if tier == "thorough" else 1
     timeout = cfg.get("timeout_thorough", 2400) if tier == "thorough" else cfg.get("timeout_quick", 420)
